@@ -1446,14 +1446,23 @@ fn var_refers_to(
         return true;
     }
     match expr {
-        SExpr::Atom(a) => match a.t.strip_prefix('$') {
-            Some(v) if v == target => true,
-            Some(v) => match vars.get(v) {
-                Some(next) => var_refers_to(next, target, vars, depth + 1),
+        SExpr::Atom(a) => {
+            // `$name`, also behind output-chord prefixes: a macro resolves `C-S-$name` to the
+            // list that `name` holds.
+            let name = a.t.strip_prefix('$').or_else(|| {
+                parse_mod_prefix(&a.t)
+                    .ok()
+                    .and_then(|(_, rest)| rest.strip_prefix('$'))
+            });
+            match name {
+                Some(v) if v == target => true,
+                Some(v) => match vars.get(v) {
+                    Some(next) => var_refers_to(next, target, vars, depth + 1),
+                    None => false,
+                },
                 None => false,
-            },
-            None => false,
-        },
+            }
+        }
         SExpr::List(l) => l
             .t
             .iter()
